@@ -5,6 +5,7 @@ set -u
 NAME=$1; TIER=${2:-quick}
 PROP=${NAME:0:3}
 WT=/tmp/seedrun
+exec 9>/tmp/seedrun.lock; flock 9   # one seed run at a time (shared scratch worktree)
 if [ ! -d $WT ]; then git -C /repo worktree add -q --detach $WT HEAD || exit 1; fi
 git -C $WT checkout -q -- . ; git -C $WT clean -fdq; git -C $WT checkout -q --detach $(git -C /repo rev-parse HEAD)
 git -C $WT apply /verif/seeded/$NAME/patch.diff || { echo "patch does not apply to HEAD"; exit 2; }
